@@ -825,7 +825,7 @@ def expr_coef_pos(repo, res):
     key = f"{f.key}:expression-triple"
     res.ob(key)
     src = ast.unparse(f.node)
-    mm = re.search(r"(\w+) = _analyze_expression\((\w+), scalar_type\)\n\s+(\w+) \+= \[\((\w+), (\w+), (\w+)\)\]", src)
+    mm = re.search(r"(\w+) = _analyze_expression\((\w+), scalar_type\)\n\s+(\w+)(?: \+= \[|\.append\()\((\w+), (\w+), (\w+)\)[\])]", src)
     if not mm:
         raise AnalysisError("analyze_ufl_objects: construction of the processed-expression triple not recognised")
     if not (mm.group(4) == mm.group(1) and mm.group(6) == mm.group(2)):
